@@ -399,6 +399,32 @@ def listener_write_facts(repo):
                             memo.append('%s: @%s %s' % (rel, ast.unparse(d)[:30], n.name))
                 if isinstance(n, ast.Call) and re.search(r'(^|\.)(lru_cache|cache)$', ast.unparse(n.func)) and n.args:
                     memo.append('%s: %s' % (rel, ast.unparse(n)[:60]))
+    # the library never writes into the configuration objects it is given (parameters, problem, listeners, ...)
+    CONFIG = ('parameters', 'problem', 'task', 'listener', 'listeners', 'solution', 'evolvent', 'searchData', 'method', 'startPoint')
+    cfgw = []
+    for root, _, files in os.walk(os.path.join(repo, 'iOpt')):
+        for fn in sorted(files):
+            if not fn.endswith('.py'):
+                continue
+            rel = os.path.relpath(os.path.join(root, fn), repo).replace(os.sep, '/')
+            for f in ast.walk(ast.parse(open(os.path.join(root, fn)).read())):
+                if not isinstance(f, ast.FunctionDef):
+                    continue
+                params = [a.arg for a in f.args.args + f.args.kwonlyargs if a.arg in CONFIG]
+                for n in ast.walk(f):
+                    tg = n.targets if isinstance(n, ast.Assign) else ([n.target] if isinstance(n, (ast.AugAssign, ast.AnnAssign)) else [])
+                    for t in tg:
+                        for e in (t.elts if isinstance(t, ast.Tuple) else [t]):
+                            base = e
+                            while isinstance(base, (ast.Attribute, ast.Subscript)):
+                                base = base.value
+                            if isinstance(base, ast.Name) and base.id in params and not isinstance(e, ast.Name):
+                                cfgw.append('%s:%s: %s' % (rel, f.name, ast.unparse(e)[:50]))
+                            # self.parameters.x = ... / self.task.problem.x = ... : writes through a stored configuration object
+                            src = ast.unparse(e)
+                            if re.match(r'self\.(parameters|task\.problem|problem|task)\.', src) and not isinstance(e, ast.Name):
+                                cfgw.append('%s:%s: %s' % (rel, f.name, src[:50]))
+    out.append('Definition configuration_object_writes : list string := %s.' % clist(map(cstr, sorted(set(cfgw)))))
     out.append('Definition process_global_state_calls : list string := %s.' % clist(map(cstr, sorted(gstate))))
     out.append('Definition memoised_functions : list string := %s.' % clist(map(cstr, sorted(memo))))
     return out
